@@ -16,6 +16,7 @@ func init() {
 			"plus the structural part of 'a write transaction reads its own uncommitted writes': a cached child bucket is never dropped without being freed or re-homed, a remap dereferences the writer's nodes before unmapping, key ordering goes through lower-bound predicates on bytes.Compare (tabulated), and a bucket's header (root + sequence) is replaced only where a bucket is opened/created, its sequence only through SetSequence/NextSequence. " +
 			"NOT decided: the map semantics themselves (what Get returns after which Puts), split/merge/inline thresholds, MoveBucket into a descendant (needs an ancestor relation over runtime values), re-open equality. Round 3: argument guards are exact (tables by guarded reachability: Put's size limits, empty bucket names, MoveBucket's same-bucket test); a value truncated to an on-disk width never indexes an in-memory collection; rebalance re-parents materialised children of transferred inodes. Round 4: free-before-drop re-evaluated (a node removed from the tree leaves the node cache with its page freed).",
 		Run: func(c *Ctx) {
+			ruleDescentComparesEveryLevel(c, "C04.R17") // Get / Delete / Bucket() go through the same descent
 			ruleEveryCachedChildSpilled(c, "C04.R16") // "its own changes become visible at commit": also those made below a bucket that was only opened
 			c04R1R2(c, "C04.R1", "C04.R2")
 			c04R3(c, "C04.R3")
